@@ -6,7 +6,7 @@
    textbook definitions of coq/C19/Spec.v; b_loop, a_loop, pr_p_loop, lp_loop, ideal_loop are the models of the code's loops
    (coq/C19/Mix.v) whose bodies are the regenerated increments. *)
 From Coq Require Import Reals QArith Qreals List String.
-From IPV Require Import Base.RExpr Base.IntervalEval C19.BExpr C19.Spec C19.PRProofs C19.Mix C19.Checker C19.Summary Gen.Gen_C19_gases.
+From IPV Require Import Base.RExpr Base.IntervalEval C19.BExpr C19.Spec C19.PRProofs C19.Cardano C19.Mix C19.Checker C19.Summary Gen.Gen_C19_gases.
 Import ListNotations.
 Local Open Scope R_scope.
 
@@ -85,6 +85,28 @@ Theorem cardano_branch_root_partial :
   Rabs (evalR (env_of []) p_one_3 - 1 / 3) <= 1 / 100000000000000000 /\ Rabs (evalR (env_of []) g_one_3 - 1 / 3) <= 1 / 100000000000000000.
 Proof. exact T_cardano_branch_root_partial. Qed.
 Print Assumptions cardano_branch_root_partial.
+
+(* PARTIAL (root finding, continued).  The other Cardano branch (two real cube roots) and the trigonometric branch (three real
+   roots; the code returns 2 ri^(1/3) cos(acos(-rq/2/ri)/3) - r1/3, the largest root) return roots of the depressed cubic
+   PROVIDED pow(x, one_3) is an exact real cube root cr on positive arguments and th = acos(arg) satisfies cos th = arg.
+   NOT proved: accuracy of pow/acos/cos in binary64, that the root returned is the largest one, the degenerate cases
+   sqrt(rz) + rq/2 = 0, rz = 0. *)
+Theorem cardano_and_trigonometric_roots_partial :
+  forall (cr : R -> R) (one3 : R), (forall x, cr x * cr x * cr x = x) -> (forall x, 0 < x -> Rpower x one3 = cr x) ->
+  (forall rp rq r1, let rz := evalR (env_of [rp; rq]) p_rzc in
+     0 <= rz -> 0 < sqrt rz - rq / 2 -> 0 < - sqrt rz - rq / 2 ->
+     let V := evalR (env_of [sqrt rz; rq; r1; one3]) p_Vm_card1 in let t := V + r1 / 3 in t * t * t + rp * t + rq = 0) /\
+  (forall rp rq r1, let rz := evalR (env_of [rp; rq]) g_rzc in
+     0 <= rz -> 0 < sqrt rz - rq / 2 -> 0 < - sqrt rz - rq / 2 ->
+     let V := evalR (env_of [sqrt rz; rq; r1; one3]) g_Vm_card1 in let t := V + r1 / 3 in t * t * t + rp * t + rq = 0) /\
+  (forall rp rq r1 th, rp < 0 -> let ri := evalR (env_of [rp]) p_ri_trig in
+     cos th = evalR (env_of [rq; ri]) p_acos_arg ->
+     let V := evalR (env_of [ri; one3; th; r1]) p_Vm_trig in let t := V + r1 / 3 in t * t * t + rp * t + rq = 0) /\
+  (forall rp rq r1 th, rp < 0 -> let ri := evalR (env_of [rp]) g_ri_trig in
+     cos th = evalR (env_of [rq; ri]) g_acos_arg ->
+     let V := evalR (env_of [ri; one3; th; r1]) g_Vm_trig in let t := V + r1 / 3 in t * t * t + rp * t + rq = 0).
+Proof. exact T_cardano_and_trigonometric_roots_partial. Qed.
+Print Assumptions cardano_and_trigonometric_roots_partial.
 
 (* --- ln(phi_i): the textbook formula, with the code's decimal literals for 2 sqrt 2, 1 + sqrt 2, sqrt 2 - 1 BOUNDED --- *)
 Theorem phi_formula_is_PR :
